@@ -3,9 +3,67 @@
    point lying on the curve is projected onto itself; the curve is not modified.
    Statements only; proofs in Proofs/AdvancedProofs.v (exact model of the piecewise-linear class). *)
 From Coq Require Import QArith List Bool Arith.
-From NurbsV Require Import Base.Res Base.QList Model.KV Model.Advanced.
+From NurbsV Require Import Base.Res Base.QList Spec.KnotSpec Model.KV Model.Advanced.
+From NurbsV Require Import Proofs.MatProofs Proofs.AdvancedProofs.
 Import ListNotations.
 Open Scope Q_scope.
+
+Theorem C19_piece_minimum :
+  forall (a b : Q) (p q x : list Q),
+       a < b ->
+       length p = length q ->
+       length x = length p ->
+       a <= seg_project (a, b, p, q) x <= b /\
+       (forall u : Q,
+        a <= u <= b ->
+        dist2 (seg_point (a, b, p, q) (seg_project (a, b, p, q) x)) x <= dist2 (seg_point (a, b, p, q) u) x).
+Proof. exact seg_project_min. Qed.
+Print Assumptions C19_piece_minimum.
+
+Theorem C19_polyline :
+  forall (d : nat) (ks : list Q) (P : list pt) (x : list Q),
+       sincr ks ->
+       length ks = length P ->
+       (2 <= length P)%nat ->
+       Forall (fun p : pt => length p = d) P ->
+       length x = d ->
+       project_polyline ks P x <> [] /\
+       sorted_b (project_polyline ks P x) = true /\
+       (forall t : Q,
+        In t (project_polyline ks P x) ->
+        first_q ks <= t <= last_q ks /\
+        (exists (a b : Q) (p q : pt),
+           In (a, b, p, q) (segments ks P) /\
+           a <= t <= b /\ t = seg_project (a, b, p, q) x /\ dist2 (seg_point (a, b, p, q) t) x == pmin ks P x)) /\
+       (forall (a b : Q) (p q : pt),
+        In (a, b, p, q) (segments ks P) ->
+        forall u : Q, a <= u <= b -> pmin ks P x <= dist2 (seg_point (a, b, p, q) u) x).
+Proof. exact project_polyline_spec. Qed.
+Print Assumptions C19_polyline.
+
+Theorem C19_point_on_curve :
+  forall (d : nat) (ks : list Q) (P : list pt) (x : list Q) (a b : Q) (p q : pt) (u0 : Q),
+       sincr ks ->
+       length ks = length P ->
+       (2 <= length P)%nat ->
+       Forall (fun p0 : pt => length p0 = d) P ->
+       In (a, b, p, q) (segments ks P) ->
+       a <= u0 <= b ->
+       veq x (seg_point (a, b, p, q) u0) ->
+       pmin ks P x == 0 /\
+       (forall t : Q,
+        In t (project_polyline ks P x) ->
+        exists (a' b' : Q) (p' q' : pt),
+          In (a', b', p', q') (segments ks P) /\ a' <= t <= b' /\ veq (seg_point (a', b', p', q') t) x).
+Proof. exact project_polyline_on_curve. Qed.
+Print Assumptions C19_point_on_curve.
+
+Theorem C19_quadratic_core :
+  forall G B D : Q,
+       0 < D -> forall t : Q, 0 <= t <= 1 -> quad G B D (qclamp 0 1 (B / D)) <= quad G B D t.
+Proof. exact quad_clamp_min. Qed.
+Print Assumptions C19_quadratic_core.
+
 
 (* non-vacuity (computed): a tie - the point (1/2, 1/2) is equidistant from both legs of an L-shaped polyline *)
 Example C19_nonvacuous_tie :
